@@ -365,8 +365,8 @@ def run_model(fn, lines, jobs=12):
 
 # ------------------------------------------------------------------------------------------------ case generation
 FILE_NAMES = ["a", "a.txt", "a-b", "A", "b", "ab", "a b", "é", "z", "0", "_x", "a.d", "B.bin", "c+d", "日本", "readme",
-              "README", "Readme", "a.TXT", "ä"]
-DIR_NAMES = ["a", "d", "a.d", "sub dir", "Z", "é", "a-b", "0", "Data", "data", "日本"]
+              "README", "Readme", "a.TXT", "ä", "we\\ird.bin", "a\\b"]       # a backslash is an ordinary character on POSIX
+DIR_NAMES = ["a", "d", "a.d", "sub dir", "Z", "é", "a-b", "0", "Data", "data", "日本", "b\\s", "payload", "xpayload"]
 PAYLOAD_NAMES = ["payload", "pay load", "päy.d", "日本", "P", "a.b-c", "payload.tar.gz"]
 OPTION_KEYS = ["announce", "comment", "private", "source", "url_list", "httpseeds"]
 OPTION_VALUES = {
